@@ -233,3 +233,13 @@ add('AU',
     Rule('X-AU', 'u32::from_be_bytes($v:i[$a:e..$b:e].try_into().unwrap())', 'be32_range(&$v, $a, $b)'),
     Rule('X-AU', 'u32::from_be_bytes($v:i.try_into().unwrap())', 'be32_vec($v)'),
     Rule('X-AU', 'Encoding::Pcm16 as u32', 'pcm16_code()'))
+
+# X-RTL (unit rtlsdr)
+add('RTL',
+    Rule('X-RTL', '$o:i.fill_from_iter($w:i.slice().chunks_exact(2).map($f:e).map($g:e) $_:c)', 'fill_from_iq_pairs(&mut $o, &$w)'))
+
+# X-CORR (unit kernels): correlator idioms
+add('CORR',
+    Rule('X-CORR', '$s:p.iter().zip(&$c:p).filter(|(a, b)| a != b).count()', 'count_diffs(&$s, &$c)'),
+    Rule('X-CORR', '$t:i.to_vec()', 'tags_to_vec($t)'),
+    Rule('X-CORR', 'Tag::new(0, self.tag.clone(), TagValue::U64($d:i.try_into().expect($m:e) $_:c) $_2:c)', 'corr_tag(&self.tag, $d)'))
